@@ -1,0 +1,30 @@
+//go:build verif
+
+// Contracts for govc (the /verif contract verifier). Comment-only: with the build tag off this file is not
+// compiled, with it on it adds no code.
+package manager
+
+// C28 discovery. A plugin is installed into <plugin dir>/<repository>/octosql-plugin-<name>/<version>/ (Install
+// below builds exactly that path). For every directory tree: each plugin directory whose name has that prefix is
+// listed under exactly the rest of its name — dashes included — and under its repository directory's name; its
+// versions are listed highest first (the order of Masterminds/semver, an abstract total preorder `rank` here), so
+// "the first listed version that satisfies a constraint" is the highest installed one that does.
+//@ spec entryName(d fs.DirEntry) string = extStr("fs.DirEntry.Name", itag(d), iref(d))
+//@ spec rank(v *semver.Version) int = extInt("semver.rank", addr(v))
+//@ spec sortedDesc(vs []Version) bool = forall(p, 0, len(vs), forall(q, p, len(vs), rank(vs[p].Number) >= rank(vs[q].Number)))
+//@ func (*PluginManager).ListInstalledPlugins
+//@   loop 2 step name: substr(entryName(dir), 0, 15) == "octosql-plugin-" ==> curOut[i].Reference.Name == substr(entryName(dir), 15, len(entryName(dir)))
+//@   loop 2 step repository: curOut[i].Reference.Repository == entryName(repoDirName)
+//@   loop 3 step sorted: sortedDesc(curOut[i].Versions)
+//@   loop 1 step appended: len(out) == old(len(out)) + len(curOut) && forall(j, 0, len(curOut), same(out[old(len(out)) + j], curOut[j]))
+
+// C28 install. The version installed is taken from the manifest (which GetManifest hands out highest first): with a
+// constraint, a version that satisfies it and is at least as high as every other manifest version that does; without
+// one, the same among the versions that are not pre-releases. If none qualifies nothing is installed.
+//@ spec eligible(v repository.Version, c *semver.Constraints) bool = ite(c != nil, extBool("semver.Check", deref(c), addr(v.Number)), extStr("semver.Prerelease", addr(v.Number)) == "")
+//@ func (*PluginManager).Install
+//@   loop 3 invariant none: version == nil
+//@   loop 3 invariant range: 0 <= $k && $k <= len(manifest.Versions)
+//@   loop 3 invariant rejected: forall(j, 0, $k, !eligible(manifest.Versions[j], constraint))
+//@   ensures highest: result == nil ==> version != nil && eligible(deref(version), constraint) && forall(j, 0, len(manifest.Versions), eligible(manifest.Versions[j], constraint) ==> rank(manifest.Versions[j].Number) <= rank(version.Number))
+//@   ensures nonefound: (forall(j, 0, len(manifest.Versions), !eligible(manifest.Versions[j], constraint))) ==> result != nil
